@@ -66,7 +66,10 @@ def filter_set(kind: str, ident: str, nodes) -> list[str]:
 def rule_sets(spec: RuleSpec, nodes):
     S = [(s, filter_set(spec.s_kind, s, nodes)) for s in spec.subjects]
     if spec.anything:
-        # "should not import anything" == "should not import modules except itself"
+        # "should not import anything" == "should not import modules except itself".  A subject listed together with
+        # one of its own ancestors is part of that ancestor (the library's documented de-duplication of the alias'
+        # subject list, pinned by its own unit tests): the batch stands for its top-most members.
+        S = [(s, ss) for s, ss in S if not any(o != s and s.startswith(o + ".") for o in spec.subjects)]
         O = list(S)
     else:
         O = [(o, filter_set(spec.o_kind, o, nodes)) for o in spec.objects]
@@ -129,6 +132,16 @@ def ambiguous_pairs(spec: RuleSpec, nodes) -> set:
                 out.add((m, x))
                 out.add((x, m))
     if spec.anything and len(spec.subjects) > 1:
+        # a subject nested inside another subject: an import from the inner one to the rest of the outer one stays
+        # inside the (top-most) subject under the joint reading and leaves the inner subject under the per-subject one
+        for inner in spec.subjects:
+            for outer in spec.subjects:
+                if inner != outer and inner.startswith(outer + "."):
+                    iset = set(filter_set(spec.s_kind, inner, nodes))
+                    for x in iset:
+                        for y in filter_set(spec.s_kind, outer, nodes):
+                            if y not in iset:
+                                out.add((x, y) if spec.direction == "import" else (y, x))
         # batched 'anything': "except itself" read jointly (imports between the subjects allowed) vs one rule per
         # subject (forbidden) - the two documented readings disagree on imports between different subjects only
         sets = [filter_set(spec.s_kind, s, nodes) for s in spec.subjects]
